@@ -596,6 +596,37 @@ IO_BOOL = ("io_write_buf", "io_write", "io_seek_src", "io_pread", "io_sync_dest"
            "io_open_src_real", "io_close_dest")
 
 
+def check_msg_status(ck, prog, rule="C17-STATUS"):
+    """message_error() is the only place where most failures become a non-zero exit status: it must record E_ERROR on
+    every path, whatever the verbosity is (-qq silences the text, not the status).  The same for message_warning() and
+    E_WARNING; message_fatal() must not return."""
+    if rule != "C17-STATUS":
+        ck.rule(rule, "message_error()/message_warning() record E_ERROR/E_WARNING on every path; message_fatal() does not return")
+    f = prog.fn("message_error", "message.c", target="xz")
+    w = prog.fn("message_warning", "message.c", target="xz")
+    ft = prog.fn("message_fatal", "message.c", target="xz")
+    en = prog.enum_with("E_ERROR", f.file) or {}
+    for g, want in ((f, "E_ERROR"), (w, "E_WARNING")):
+        ck.saw_function(g)
+
+        def via(bb, ii, ee, want=want):
+            for c in ex.calls(ee, into_refs=False):
+                if c.get("fn") == "set_exit_status" and c["args"] and ex.const_val(c["args"][0]) == en.get(want):
+                    return True
+            return False
+        ok, path = cfg.must_pass(g, [g.entry], [g.exit], via)
+        ck.ob(rule, "%s:sets-status" % g.name, ok and want in en, common.where(g),
+              "%s(): set_exit_status(%s) on every path" % (g.name, want) if ok else
+              "%s() can return (lines %s) without set_exit_status(%s): with that path taken (e.g. messages silenced by -qq) a "
+              "failed operation leaves the exit status 0" % (g.name, cfg.path_lines(g, path), want),
+              key="STATUS:%s:sets-status" % g.name)
+    ck.saw_function(ft)
+    rets_ = cfg.returns(ft)
+    ex_ = any(c.get("fn") in ("tuklib_exit", "exit", "_exit") for b, i, e in ft.iter_elems() for c in ex.calls(e, into_refs=False))
+    ck.ob(rule, "message_fatal:exits", ex_ and not rets_, common.where(ft),
+          "message_fatal() ends in tuklib_exit(E_ERROR, ...) and has no return", key="STATUS:message_fatal:exits")
+
+
 def check_perfile(ck, prog):
     """(a) No failure reported by an xz I/O function is dropped.  (b) Per-file decisions kept in file-scope variables of
     coder.c are re-made for every file: a variable that coder_init() assigns on some paths is assigned on every path
@@ -841,6 +872,7 @@ def run(ck):
     check_who(ck, prog)
     check_sig(ck, prog)
     check_sigset(ck, prog)
+    check_msg_status(ck, prog)
     check_status(ck, prog)
     check_perfile(ck, prog)
     check_exit_sticky(ck, prog)
